@@ -264,6 +264,31 @@ func c16Pipeline(c *h.Ctx, id string, r *rand.Rand) {
 			}
 		}
 	}()
+	// face churn: one face that is a next hop / downstream of the traffic is torn down and
+	// re-created over and over while the threads forward to it
+	churnFace := uint64(3 + r.Intn(2))
+	var nChurn atomic.Int64
+	var churnWG sync.WaitGroup
+	churnWG.Add(1)
+	go func() {
+		defer churnWG.Done()
+		for k := 0; ; k++ {
+			select {
+			case <-stop:
+				return
+			default:
+			}
+			dispatch.RemoveFace(churnFace)
+			if k%64 == 0 {
+				runtime.Gosched()
+			}
+			dispatch.AddFace(churnFace, sim.Faces[churnFace])
+			nChurn.Add(1)
+			if k%16 == 0 {
+				runtime.Gosched()
+			}
+		}
+	}()
 	// traffic
 	sent := 0
 	seedT := r.Int63()
@@ -288,6 +313,8 @@ func c16Pipeline(c *h.Ctx, id string, r *rand.Rand) {
 	}()
 	wg.Wait()
 	close(stop)
+	churnWG.Wait()
+	dispatch.AddFace(churnFace, sim.Faces[churnFace])
 	time.Sleep(30 * time.Millisecond)
 	core.ShouldQuit = true
 	for _, t := range threads {
@@ -305,6 +332,7 @@ func c16Pipeline(c *h.Ctx, id string, r *rand.Rand) {
 	fw := len(sim.TakeSends())
 	c.Count("pipeline_interests", int64(sent))
 	c.Count("pipeline_forwarded", int64(fw))
+	c.Count("pipeline_face_teardowns", nChurn.Load())
 	c.Distinct("pipeline|" + algo)
 	c.Sample(map[string]any{"workload": "pipeline", "fib": algo, "threads": nT, "interests": sent, "forwarded": fw})
 }
